@@ -62,9 +62,81 @@ import (
 
 type fromDef struct {
 	db, rp, name string
-	wh           int    // -1 = no where()
-	opts         string // letters of optLetters: groupBy(...) variants, groupByMeasurement(), truncate(d), round(d)
-	parent       int    // -1 = stream|from(); j = chained below from-node #j (j earlier)
+	wh           int       // -1 = no where()
+	opts         string    // letters of optLetters: groupBy(...) variants, groupByMeasurement(), truncate(d), round(d)
+	parent       int       // -1 = stream|from(); j = chained below from-node #j (j earlier)
+	loops        []loopDef // kapacitorLoopback() nodes below this from-node
+}
+
+// loopDef: one `|kapacitorLoopback().database(db).retentionPolicy(rp)[.measurement(name)][.tag(k, v)…]`.
+type loopDef struct {
+	db, rp, name string
+	tags         [][2]string // in key order
+}
+
+// loop token: db;rp;name[;k=v…] (every part kit.Esc'ed)
+func loopTok(l *loopDef) string {
+	parts := []string{kit.Esc(l.db), kit.Esc(l.rp), kit.Esc(l.name)}
+	for _, kv := range l.tags {
+		parts = append(parts, kit.Esc(kv[0])+"="+kit.Esc(kv[1]))
+	}
+	return strings.Join(parts, ";")
+}
+
+func parseLoop(tok string) (loopDef, error) {
+	var l loopDef
+	f := strings.Split(tok, ";")
+	if len(f) < 3 {
+		return l, fmt.Errorf("bad loop %q", tok)
+	}
+	var e1, e2, e3 error
+	l.db, e1 = kit.Unesc(f[0])
+	l.rp, e2 = kit.Unesc(f[1])
+	l.name, e3 = kit.Unesc(f[2])
+	if e1 != nil || e2 != nil || e3 != nil {
+		return l, fmt.Errorf("bad loop %q", tok)
+	}
+	for _, kv := range f[3:] {
+		x := strings.Split(kv, "=")
+		if len(x) != 2 {
+			return l, fmt.Errorf("bad loop tag %q", kv)
+		}
+		k, e1 := kit.Unesc(x[0])
+		v, e2 := kit.Unesc(x[1])
+		if e1 != nil || e2 != nil || k == "" || k == "host" {
+			// (the where-lambdas of the harness read the tag host: a loopback node never sets it, so the oracle column of a
+			// point written back is the one of the point it was made from)
+			return l, fmt.Errorf("bad loop tag %q", kv)
+		}
+		if n := len(l.tags); n > 0 && l.tags[n-1][0] >= k {
+			return l, fmt.Errorf("loop tags must be listed in key order: %q", tok)
+		}
+		l.tags = append(l.tags, [2]string{k, v})
+	}
+	return l, nil
+}
+
+func (d *taskDef) hasLoops() bool {
+	for _, f := range d.froms {
+		if len(f.loops) > 0 {
+			return true
+		}
+	}
+	return false
+}
+
+// selfLoop: newKapacitorLoopbackNode refuses a node that writes into one of the task's own dbrps.
+func (d *taskDef) selfLoop() bool {
+	for _, f := range d.froms {
+		for _, l := range f.loops {
+			for _, x := range d.dbrps {
+				if x[0] == l.db && x[1] == l.rp {
+					return true
+				}
+			}
+		}
+	}
+	return false
 }
 
 type taskDef struct {
@@ -246,7 +318,7 @@ func fromsTok(fs []fromDef) string {
 			wh = strconv.Itoa(f.wh)
 		}
 		tok := kit.Esc(f.db) + "|" + kit.Esc(f.rp) + "|" + kit.Esc(f.name) + "|" + wh
-		if f.opts != "" || f.parent >= 0 {
+		if f.opts != "" || f.parent >= 0 || len(f.loops) > 0 {
 			o, par := "-", "-"
 			if f.opts != "" {
 				o = f.opts
@@ -255,6 +327,13 @@ func fromsTok(fs []fromDef) string {
 				par = strconv.Itoa(f.parent)
 			}
 			tok += "|" + o + "|" + par
+		}
+		if len(f.loops) > 0 {
+			var ls []string
+			for k := range f.loops {
+				ls = append(ls, loopTok(&f.loops[k]))
+			}
+			tok += "|" + strings.Join(ls, "~")
 		}
 		s = append(s, tok)
 	}
@@ -265,7 +344,7 @@ func parseFroms(tok string) ([]fromDef, error) {
 	var out []fromDef
 	for _, x := range strings.Split(tok, ",") {
 		f := strings.Split(x, "|")
-		if len(f) != 4 && len(f) != 6 {
+		if len(f) != 4 && len(f) != 6 && len(f) != 7 {
 			return nil, fmt.Errorf("bad from %q", x)
 		}
 		db, e1 := kit.Unesc(f[0])
@@ -283,7 +362,16 @@ func parseFroms(tok string) ([]fromDef, error) {
 			wh = k
 		}
 		fd := fromDef{db: db, rp: rp, name: nm, wh: wh, parent: -1}
-		if len(f) == 6 {
+		if len(f) == 7 {
+			for _, lt := range strings.Split(f[6], "~") {
+				l, err := parseLoop(lt)
+				if err != nil {
+					return nil, err
+				}
+				fd.loops = append(fd.loops, l)
+			}
+		}
+		if len(f) >= 6 {
 			if f[4] != "-" {
 				if strings.Trim(f[4], optLetters) != "" {
 					return nil, fmt.Errorf("bad from options %q", f[4])
@@ -343,6 +431,26 @@ func script(d *taskDef) string {
 			fmt.Fprintf(&b, "        .round(%ds)\n", int64(o.rnd/time.Second))
 		}
 		fmt.Fprintf(&b, "f%d\n    @sink()\n", i)
+	}
+	// the loopback nodes come last, so that the sinks keep their node ids
+	for i, f := range d.froms {
+		for k := range f.loops {
+			fmt.Fprintf(&b, "f%d\n%s", i, loopScript(&f.loops[k]))
+		}
+	}
+	return b.String()
+}
+
+func loopScript(l *loopDef) string {
+	var b strings.Builder
+	b.WriteString("    |kapacitorLoopback()\n")
+	b.WriteString("        .database(" + tickStr(l.db) + ")\n")
+	b.WriteString("        .retentionPolicy(" + tickStr(l.rp) + ")\n")
+	if l.name != "" {
+		b.WriteString("        .measurement(" + tickStr(l.name) + ")\n")
+	}
+	for _, kv := range l.tags {
+		b.WriteString("        .tag(" + tickStr(kv[0]) + ", " + tickStr(kv[1]) + ")\n")
 	}
 	return b.String()
 }
@@ -485,6 +593,8 @@ type runner struct {
 	epochs     map[string][]epoch // sink key -> which from-node definition recorded from which index on
 	hung       string             // set when a call into the real code did not return (the process must then exit)
 	noiseSeen  int                // noise points found in the sinks' recordings (they were routed to tasks of the case)
+	closed     bool               // Drain was called: WriteKapacitorPoint refuses every loopback write from now on
+	batch      map[string]string  // running BATCH tasks (id -> token of their loopback node)
 }
 
 type epoch struct {
@@ -699,6 +809,9 @@ func (r *runner) start(d *taskDef, failSnapshot bool) string {
 	for _, x := range d.dbrps {
 		dbrps = append(dbrps, kapacitor.DBRP{Database: x[0], RetentionPolicy: x[1]})
 	}
+	if !d.selfLoop() && r.loopCycle(d) {
+		return "skip:cycle" // not executed: the harness does not build cycles of loopback nodes
+	}
 	task, err := r.tm.TM.NewTask(d.id, script(d), kapacitor.StreamTask, dbrps, 0, nil)
 	if err != nil {
 		return "err:newtask"
@@ -720,6 +833,9 @@ func (r *runner) start(d *taskDef, failSnapshot bool) string {
 		}
 		if r.running[d.id] != nil {
 			return "err:executing"
+		}
+		if strings.Contains(err.Error(), "loop detected") {
+			return "err:loop"
 		}
 		if err == errSnapshot {
 			return "err:snapshot"
@@ -881,17 +997,25 @@ func lpLine(p *point, ts int64) string {
 
 // accepted does the book-keeping of points the implementation accepted.
 func (r *runner) accepted(db, rp string, pts []*point, times map[int64]time.Time) {
+	r.acceptedFrom(db, rp, pts, times, 0)
+}
+
+// acceptedFrom: depth > 0 = the points were written back by a loopback node (they are forked like every other point and
+// counted by the ingress statistics; the harness' own cross-check of recorded points is only made for depth 0).
+func (r *runner) acceptedFrom(db, rp string, pts []*point, times map[int64]time.Time, depth int) {
 	r.written += int64(len(pts))
 	erp := rp
 	if erp == "" {
 		erp = r.defRP
 	}
-	for _, p := range pts {
-		t, ok := times[p.id]
-		if !ok {
-			t = time.Unix(0, p.t).UTC()
+	if depth == 0 {
+		for _, p := range pts {
+			t, ok := times[p.id]
+			if !ok {
+				t = time.Unix(0, p.t).UTC()
+			}
+			r.wrote[p.id] = &wpoint{p: p, db: db, rp: erp, t: t}
 		}
-		r.wrote[p.id] = &wpoint{p: p, db: db, rp: erp, t: t}
 	}
 	for id, d := range r.running {
 		declared := false
@@ -907,10 +1031,66 @@ func (r *runner) accepted(db, rp string, pts []*point, times map[int64]time.Time
 			for _, p := range pts {
 				if selectsChain(d, i, db, erp, p) {
 					r.expected[sinkKey(id, i)]++
+					// every loopback node below this from-node writes the point back (refused after Drain)
+					for k := range d.froms[i].loops {
+						l := &d.froms[i].loops[k]
+						if r.closed || depth >= 8 {
+							continue
+						}
+						q := *p
+						if l.name != "" {
+							q.name = l.name
+						}
+						r.acceptedFrom(l.db, l.rp, []*point{&q}, nil, depth+1)
+					}
 				}
 			}
 		}
 	}
+}
+
+// loopCycle: would starting d close a cycle of loopback nodes among the running tasks (points would circulate for ever)?
+func (r *runner) loopCycle(d *taskDef) bool {
+	edges := map[[2]string][][2]string{}
+	add := func(t *taskDef) {
+		for _, f := range t.froms {
+			for _, l := range f.loops {
+				for _, x := range t.dbrps {
+					edges[x] = append(edges[x], [2]string{l.db, l.rp})
+				}
+			}
+		}
+	}
+	for id, t := range r.running {
+		if id != d.id {
+			add(t)
+		}
+	}
+	add(d)
+	state := map[[2]string]int{}
+	var visit func(x [2]string) bool
+	visit = func(x [2]string) bool {
+		if state[x] == 1 {
+			return true
+		}
+		if state[x] == 2 {
+			return false
+		}
+		state[x] = 1
+		for _, y := range edges[x] {
+			if visit(y) {
+				return true
+			}
+		}
+		state[x] = 2
+		return false
+	}
+	for x := range edges {
+		if visit(x) {
+			return true
+		}
+	}
+	return false
 }
 
 // source: WritePoints and a StreamCollector feed two different forking goroutines; the order between points of
@@ -1008,7 +1188,86 @@ func (r *runner) drain() string {
 		return "hang"
 	}
 	r.running = map[string]*taskDef{}
+	r.closed = true
 	return "ok"
+}
+
+// bloop: the kapacitorLoopback() node of a BATCH task writes the points of one batch. The batch task
+// (`batch|query(…)|kapacitorLoopback()…`, dbrp bd.autogen) is started on first use without StartBatching (no query is
+// ever made) and fed through its BatchCollector, as replays do.
+func (r *runner) bloop(id string, l *loopDef, bname string, pts []*point) string {
+	r.source("writepoints")
+	tok := loopTok(l)
+	if cur, ok := r.batch[id]; ok && cur != tok {
+		r.waitForked() // everything its node wrote back has been forked
+		if _, hung := r.call("StopTask (batch) "+id, func() error { return r.stopBatch(id) }); hung {
+			return "hang"
+		}
+	}
+	if _, ok := r.batch[id]; !ok {
+		scr := "batch\n    |query('SELECT * FROM \"bd\".\"autogen\".\"m\"')\n        .period(1s)\n        .every(1h)\n" + loopScript(l)
+		task, err := r.tm.TM.NewTask(id, scr, kapacitor.BatchTask, []kapacitor.DBRP{{Database: "bd", RetentionPolicy: "autogen"}}, 0, nil)
+		if err != nil {
+			return "err:newtask"
+		}
+		err, hung := r.call("StartTask (batch) "+id, func() error { _, e := r.tm.TM.StartTask(task); return e })
+		if hung {
+			return "hang"
+		}
+		if err != nil {
+			return "err:start"
+		}
+		r.batch[id] = tok
+	}
+	cs := r.tm.TM.BatchCollectors(id)
+	if len(cs) != 1 {
+		return "err:collectors"
+	}
+	var bps []edge.BatchPointMessage
+	var tmax time.Time
+	for _, p := range pts {
+		tags := models.Tags{}
+		if p.host != "" {
+			tags["host"] = p.host
+		}
+		if p.dc != "" {
+			tags["dc"] = p.dc
+		}
+		t := time.Unix(0, p.t).UTC()
+		if t.After(tmax) {
+			tmax = t
+		}
+		bps = append(bps, edge.NewBatchPointMessage(models.Fields{"id": p.id, "v": p.v}, tags, t))
+	}
+	bb := edge.NewBufferedBatchMessage(edge.NewBeginBatchMessage(bname, models.Tags{}, false, tmax, len(bps)), bps, edge.NewEndBatchMessage())
+	err, hung := r.call("BatchCollector.CollectBatch", func() error { return cs[0].CollectBatch(bb) })
+	if hung {
+		return "hang"
+	}
+	if err != nil {
+		return "err:write"
+	}
+	if !r.closed {
+		var qs []*point
+		for _, p := range pts {
+			q := *p
+			q.name = bname
+			qs = append(qs, &q)
+		}
+		r.acceptedFrom(l.db, l.rp, qs, nil, 1)
+	} else {
+		// every write is refused: wait until the node has seen the whole batch (nothing else tells)
+		time.Sleep(20 * time.Millisecond)
+	}
+	return "ok"
+}
+
+func (r *runner) stopBatch(id string) error {
+	for _, bc := range r.tm.TM.BatchCollectors(id) {
+		bc.Close()
+	}
+	delete(r.batch, id)
+	return r.tm.TM.DeleteTask(id)
 }
 
 // malformed line-protocol lines (each makes models.ParsePointsWithPrecision fail)
@@ -1138,7 +1397,8 @@ func (r *runner) sinkIDs(key string) string {
 				ep = &eps[k]
 			}
 		}
-		if w := r.wrote[id]; w != nil && ep != nil {
+		_, looped := pm.Tags()["lb"] // written back by a loopback node (every generated one sets the tag lb): judged by the Lean driver only
+		if w := r.wrote[id]; w != nil && ep != nil && !looped {
 			host, hasHost := pm.Tags()["host"]
 			dc, hasDC := pm.Tags()["dc"]
 			v, _ := pm.Fields()["v"].(int64)
@@ -1233,7 +1493,7 @@ func obsPoint(pm edge.PointMessage) string {
 // (re)generated from what was started, so a shrunk or hand-written case needs none.
 func execCase(ops []string) (out []string, hung string) {
 	r := &runner{running: map[string]*taskDef{}, everDef: map[string]int{}, expected: map[string]int{}, waitLimit: 8 * time.Second,
-		wrote: map[int64]*wpoint{}, epochs: map[string][]epoch{}}
+		wrote: map[int64]*wpoint{}, epochs: map[string][]epoch{}, batch: map[string]string{}}
 	if s := os.Getenv("VERIF_C02_WAIT_MS"); s != "" {
 		if v, err := strconv.Atoi(s); err == nil {
 			r.waitLimit = time.Duration(v) * time.Millisecond
@@ -1311,6 +1571,33 @@ func execCase(ops []string) (out []string, hung string) {
 			guard(line, func() string { return r.start(&taskDef{id: id, dbrps: dbrps, froms: froms}, t[0] == "startfail") })
 		case "drain":
 			guard(line, func() string { return r.drain() })
+		case "bloop":
+			if len(t) != 5 {
+				out = append(out, line+" => badop")
+				continue
+			}
+			id, _ := kit.Unesc(t[1])
+			l, e1 := parseLoop(t[2])
+			bname, e2 := kit.Unesc(t[3])
+			var pts []*point
+			var toks []string
+			ok := e1 == nil && e2 == nil && l.db != "" && l.rp != "" && bname != "" && !(l.db == "bd" && l.rp == "autogen")
+			if ok {
+				for _, x := range strings.Split(t[4], ",") {
+					p, err := parsePoint(x)
+					if err != nil {
+						ok = false
+						break
+					}
+					pts, toks = append(pts, p), append(toks, pointTok(p))
+				}
+			}
+			if !ok {
+				out = append(out, line+" => badop")
+				continue
+			}
+			line = fmt.Sprintf("bloop %s %s %s %s", t[1], t[2], t[3], strings.Join(toks, ","))
+			guard(line, func() string { return r.bloop(id, &l, bname, pts) })
 		case "swrite":
 			if len(t) != 4 {
 				out = append(out, line+" => badop")
@@ -1459,6 +1746,10 @@ func execCase(ops []string) (out []string, hung string) {
 		all[id] = true
 	}
 	r.waitSinks(all, true)
+	for id := range r.batch {
+		id := id
+		r.call("StopTask (batch) "+id, func() error { return r.stopBatch(id) })
+	}
 	if _, hung := r.call("TaskMaster.Close", func() error { tm.Close(); return nil }); hung {
 		out = append(out, "close => hang")
 	}
